@@ -37,4 +37,41 @@ def run(drv, pid, tier, seed, configs):
                               desc="concurrent results differ from sequential results: " + so[-800:]))
         elif rc != 0:
             broken.append("race pass %s rc=%d: %s" % (c, rc, (se or so)[-1500:]))
+    # second free-running workload under the race detector: the C06 workload (every exported function and method of every
+    # public package, on the shared alphabets), whose cases run on all cores at once - package-level scratch, pools and
+    # lazily built state inside ANY entry point are then written concurrently.  Results are not compared here (C06 does
+    # that); only race reports and crashes count.
+    import tempfile
+    cov["api_workload_race_pass"] = {}
+    wbins = {}
+    for tags in sorted({drv.CONFIGS[c][0] for c in cfgs}):
+        wbins[tags] = drv.build("c06", tags, race=True)
+        if wbins[tags] is None:
+            broken.append("race build of the API workload failed for tags " + tags)
+    if broken:
+        return cov, viols, broken
+    for c in cfgs:
+        tags, renv = drv.CONFIGS[c]
+        env = dict(renv)
+        env["GORACE"] = "halt_on_error=0 exitcode=66 history_size=5"
+        env["GOMAXPROCS"] = "16"
+        d = tempfile.mkdtemp(prefix="verif-c18w-", dir=drv.BUILD)
+        try:
+            rc, so, se, dt = drv.run_proc(wbins[tags], ["-tier", "quick", "-seed", str(seed), "-config", c, "-out", os.path.join(d, "r.json"),
+                                                        "-digests", os.path.join(d, "d.txt")], env, timeout=1800)
+        finally:
+            import shutil
+            shutil.rmtree(d, ignore_errors=True)
+        races = se.count("WARNING: DATA RACE")
+        cov["api_workload_race_pass"][c] = dict(rc=rc, wall_s=round(dt, 1), data_races=races)
+        if races:
+            m = re.search(r"WARNING: DATA RACE\n(.*?)\n\n", se, re.S)
+            first = m.group(1) if m else se[:1500]
+            fn = re.search(r"\n\s+(\S+)\(\)\n", "\n" + first)
+            viols.append(dict(sub="race-api-workload", index=-1, key="data-race/" + (fn.group(1) if fn else "?"), config=c, noreplay=True,
+                              desc="race detector report while the API workload ran on all cores (%d reports); first:\n%s" % (races, first[:1800])))
+        elif rc not in (0, 1):
+            # (rc 1 = the workload's own differential verdict, which belongs to C06)
+            viols.append(dict(sub="race-api-workload", index=-1, key="concurrent-crash", config=c, noreplay=True,
+                              desc="the API workload crashed when its cases ran concurrently under the race detector (rc=%d): %s" % (rc, (se or so)[-1200:])))
     return cov, viols, broken
